@@ -93,6 +93,42 @@ func runP7Sym(sc M) {
 			d.AuthInfo.CertData = bare
 			return d.Verify(cert)
 		})
+		// one parsed object verified against several certificates in turn: every verdict must be the one a fresh
+		// parse gives for that certificate (no state may leak from one verification into the next)
+		callStart(id, "p7-shared", nil)
+		oS, _ := guard(func() error {
+			fresh := map[string]string{}
+			for _, cn := range []string{"A", "B", "At"} {
+				p, err := pkcs7.ParsePKCS7(wrapped)
+				if err != nil {
+					return nil
+				}
+				ok, e := p.Verify(certByName(cn))
+				fresh[cn] = verdict(ok, e, Outcome{Kind: "value"})
+			}
+			for _, order := range [][]string{{"A", "At", "B", "A"}, {"At", "A", "At"}, {"B", "At", "A", "B"}, {str(sc, "cert"), "A", "At", "B", str(sc, "cert")}} {
+				p, err := pkcs7.ParsePKCS7(wrapped)
+				if err != nil {
+					return nil
+				}
+				for _, cn := range order {
+					ok, e := p.Verify(certByName(cn))
+					if got := verdict(ok, e, Outcome{Kind: "value"}); (got == "true") != (fresh[cn] == "true") {
+						results["p7-shared"] = "true"
+						if fresh[cn] == "true" {
+							results["p7-shared"] = "false"
+						}
+						results["p7-shared:order"] = fmt.Sprint(order, " at ", cn, ": ", got, " but a fresh parse gives ", fresh[cn])
+						return nil
+					}
+				}
+			}
+			return nil
+		})
+		if oS.Kind == "panic" {
+			results["p7-shared"] = "panic"
+			results["p7-shared:panic"] = oS.Panic
+		}
 		if ct == "spc" && content != "none" {
 			run("auth", func() (bool, error) {
 				a, err := authenticode.ParseAuthenticode(wrapped)
@@ -115,7 +151,11 @@ func runP7Sym(sc M) {
 	bad := []string{}
 	for name, r := range results {
 		rs, _ := r.(string)
-		if len(name) > 6 && name[len(name)-6:] == ":panic" {
+		if (len(name) > 6 && name[len(name)-6:] == ":panic") || name == "p7-shared:order" {
+			continue
+		}
+		if name == "p7-shared" {
+			bad = append(bad, "p7-shared: verdict on a shared parsed object depends on earlier verifications: "+fmt.Sprint(results["p7-shared:order"]))
 			continue
 		}
 		switch {
